@@ -101,7 +101,7 @@ fn judge(rep: &mut Rep, entry: &str, kind: &str, o: &Outcome, ref_accepts: Optio
 }
 
 pub fn run(rep: &mut Rep) {
-    rep.rule = "proving requests through generate_rln_proof (E1), generate_rln_proof_with_witness (E2), prove (E4) and the typed route rln_witness_from_json -> protocol::generate_proof + proof_values_from_witness (E5, malformed paths only): message id = limit, limit+1, 2^16, p-1; limit 0 and > 2^16 with ids on both sides of limit-2^16; index 2^20, 2^20+1, 2^32, u64::MAX, non-member index; request bytes truncated at every length; declared signal length beyond the buffer / 2^32 / 2^63 / 2^64-1; witnesses with path length 0/19/21, mismatched counts, direction values 2/255, trailing bytes; random bytes; plus valid requests as controls. Outcome classes {Ok+verifies, Ok+fails, Err, panic}; rln.wasm decides satisfiability of well-formed requests. distinct_nontrivial = distinct (entry point, request kind, outcome class)".into();
+    rep.rule = "proving requests through generate_rln_proof (E1), generate_rln_proof_with_witness (E2), prove (E4) and the typed route rln_witness_from_json -> protocol::generate_proof + proof_values_from_witness (E5, malformed paths only): message id = limit, limit+1, 2^16, p-1; limit 0 and > 2^16 with ids on both sides of limit-2^16; index 2^20, 2^20+1, 2^32, u64::MAX, non-member index; request bytes truncated at every length; declared signal length beyond the buffer / 2^32 / 2^63 / 2^64-1; witnesses with path length 0/19/21, mismatched counts, direction values 2/255, trailing bytes; field values of valid requests / witnesses encoded as v + k*p; random bytes; plus valid requests as controls. Outcome classes {Ok+verifies, Ok+fails, Err, panic}; rln.wasm decides satisfiability of well-formed requests. distinct_nontrivial = distinct (entry point, request kind, outcome class)".into();
     rep.assumptions = vec!["'verification accepts' = verify and verify_with_roots with the carried root (and verify_rln_proof for requests about a registered member)".into(), "Err on a request the reference accepts is not a C12 violation (completeness is C01's)".into()];
     let thorough = rep.thorough();
     let mut rng = rng_for(rep.seed, "c12");
@@ -229,6 +229,22 @@ pub fn run(rep: &mut Rep) {
         let o = e1(&mut c, &req, sig2, true);
         judge(rep, "E1", &format!("declared-signal-length:{kind}"), &o, None, json!({"declared": declared, "present": signal.len()}));
     }
+    // ---- A2: the tree-state request with field values in a non-canonical encoding v + k*p
+    {
+        let good = base(&Fr::from(7u64), &Fr::from(limit), index as u64);
+        for (fname, off) in [("identity_secret", 0usize), ("user_message_limit", 40), ("message_id", 72), ("external_nullifier", 104)] {
+            for k in [1u32, 2, 4] {
+                let v = BigUint::from_bytes_le(&good[off..off + 32]) + &p * k;
+                if v.bits() > 256 {
+                    continue;
+                }
+                let mut r2 = good.clone();
+                r2[off..off + 32].copy_from_slice(&big_to_le32(&v));
+                let o = e1(&mut c, &r2, Some(&signal), true);
+                judge(rep, "E1", &format!("alias:{fname}"), &o, None, json!({"field": fname, "k": k, "request": hex_short(&r2)}));
+            }
+        }
+    }
     // ---- B: malformed witnesses through E2 / E4
     let (path, bits) = c.model.proof(index);
     let good_w = Witness { secret, limit: Fr::from(limit), msg_id: Fr::from(7u64), path: path.clone(), bits: bits.clone(), x: crate::refhash::hash_to_field_ref(&signal), ext };
@@ -297,6 +313,27 @@ pub fn run(rep: &mut Rep) {
             let mut b2 = b.clone();
             b2[off..off + 8].copy_from_slice(&enc_u64((rem_by as i64 + d) as u64));
             ws.push((format!("bits-count-near-buffer-end@{d}"), b2, None));
+        }
+    }
+    {
+        // field values of a valid witness in a non-canonical encoding v + k*p (still 32 bytes): the prover may refuse
+        // them or prove for v - but then the message it returns has to be one verification accepts
+        let b = enc_witness(&good_w);
+        let n = b.len();
+        let fields: Vec<(String, usize)> = vec![
+            ("identity_secret".into(), 0), ("user_message_limit".into(), 32), ("message_id".into(), 64),
+            ("path_element[0]".into(), 104), ("path_element[19]".into(), 104 + 32 * 19), ("x".into(), n - 64), ("external_nullifier".into(), n - 32),
+        ];
+        for (fname, off) in fields.iter() {
+            for k in [1u32, 2, 4] {
+                let v = BigUint::from_bytes_le(&b[*off..*off + 32]) + &p * k;
+                if v.bits() > 256 {
+                    continue;
+                }
+                let mut b2 = b.clone();
+                b2[*off..*off + 32].copy_from_slice(&big_to_le32(&v));
+                ws.push((format!("alias:{fname}@+{k}p"), b2, None));
+            }
         }
     }
     for k in 0..(if thorough { 300 } else { 30 }) {
